@@ -10,7 +10,7 @@ ok=0; miss=0; skipped=0
 for d in seeded/*${pat}*/; do
   id=$(basename $d); prop=${id%%-*}
   [ -f $d/patch.diff ] || continue
-  p=$d/patch.diff; [ -f $d/patch.rebased.diff ] && p=$d/patch.rebased.diff
+  p=/verif/$d/patch.diff; [ -f $d/patch.rebased.diff ] && p=/verif/$d/patch.rebased.diff
   checks=$(python3 -c "import json,sys; m=json.load(open('$d/meta.json')); print(' '.join(m.get('regress_checks',[])) if not m.get('base_rev') else 'SKIP')" 2>/dev/null)
   [ -z "$checks" ] && checks=$prop
   [ "$id" = "C04-r2m3" ] && checks=C07
